@@ -198,6 +198,42 @@ VP_ENTRY vp_main_roundtrip_array0() { t_roundtrip_array<0>(); }
 VP_ENTRY vp_main_roundtrip_array1() { t_roundtrip_array<1>(); }
 VP_ENTRY vp_main_roundtrip_array2() { t_roundtrip_array<2>(); }
 
+// std::string payloads (libstdc++ string model): length concrete per entry, characters symbolic (every byte value, incl. NUL)
+template <int N> static void t_roundtrip_string()
+{
+  vp_nothrow(true);
+  std::string s;
+  s.resize(N);
+  for (int i = 0; i < N; i++) s[i] = (char)vp_nondet_u8();
+  BufferWriter w; WriteSizeCalculator calc;
+  w << s; calc << s;
+  vp_assert(w.buffer->size() == 8 + (size_t)N && calc.writtenSize == 8 + (size_t)N, "string bytes = size word + characters");
+  BufferReader r(w.buffer);
+  std::string t;
+  r >> t;
+  vp_assert(t.size() == (size_t)N, "string length round-trips");
+  for (int i = 0; i < N; i++) vp_assert(t[i] == s[i], "string characters round-trip (every byte value)");
+  vp_assert(r.end(), "string consumed exactly");
+  vp_reach("roundtrip-string-end");
+}
+VP_ENTRY vp_main_roundtrip_str0() { t_roundtrip_string<0>(); }
+VP_ENTRY vp_main_roundtrip_str1() { t_roundtrip_string<1>(); }
+VP_ENTRY vp_main_roundtrip_str2() { t_roundtrip_string<2>(); }
+VP_ENTRY vp_main_roundtrip_str3() { t_roundtrip_string<3>(); }
+VP_ENTRY vp_main_roundtrip_cstr()
+{
+  vp_nothrow(true);
+  char c[3] = {(char)vp_nondet_u8(), (char)vp_nondet_u8(), 0};
+  vp_assume(c[0] != 0 && c[1] != 0);
+  BufferWriter w;
+  w << (const char *)c;
+  vp_assert(w.buffer->size() == 8 + 2, "C string bytes = size word + strlen characters");
+  BufferReader r(w.buffer);
+  std::string t; r >> t;
+  vp_assert(t.size() == 2 && t[0] == c[0] && t[1] == c[1] && r.end(), "C string reads back as a std::string");
+  vp_reach("roundtrip-cstr-end");
+}
+
 // every truncation point of a written stream makes the typed read throw
 VP_ENTRY vp_main_truncation()
 {
